@@ -231,4 +231,29 @@ theorem memOk_after_put (hm : MemOk m sp) {c : Cert} {t' : Table}
   · have : (sp.push c).certs.length = sp.certs.length + 1 := by rw [Spec.push_certs]; simp
     rw [this]; exact ht'.symm
 
+theorem put_refines' (cfg : Cfg) {ds : DS} {sp : Spec} {m : Mem} (hr : Repr cfg.freq ds sp) (hm : MemOk m sp) (hs : SubsOk m)
+    (hsmall : sp.certs.length + 1 < maxInt) (c : Cert) :
+    Repr cfg.freq (applyWs ds (put cfg m c).ws) (sp.put c) ∧
+    (match (put cfg m c).res with
+     | .ok m' => MemOk m' (sp.put c) ∧ SubsOk m'
+     | .error _ => sp.put c = sp) := by
+  by_cases hadm : sp.admits c = true
+  · obtain ⟨t', ht', _, hput⟩ := put_admitted cfg hm hr.facts hs hadm
+    have hp : sp.put c = sp.push c := by unfold Spec.put; rw [if_pos hadm]
+    rw [hput, hp]
+    refine ⟨repr_put hr hadm ht' hsmall, memOk_after_put hm ht' _, ?_⟩
+    intro s hs'
+    simp only [List.mem_map] at hs'
+    obtain ⟨s0, _, rfl⟩ := hs'
+    simp
+  · have hadm' : sp.admits c = false := by simpa using hadm
+    have hp : sp.put c = sp := by unfold Spec.put; rw [if_neg hadm]
+    rw [hp]
+    by_cases hst : sp.first ≤ c.inst ∧ c.inst < sp.next ∧ c.chain = .ok
+    · rw [put_stale cfg hm hr.facts hst.1 hst.2.1 hst.2.2]
+      exact ⟨hr, hm, hs⟩
+    · obtain ⟨e, he, _⟩ := put_rejected cfg hm hr.facts hadm' hst
+      rw [he]; exact ⟨hr, rfl⟩
+
+
 end F3.Store
